@@ -146,7 +146,14 @@ fn run_case(seed: u64, idx: u64) -> CaseOut {
             let before_ticks = track.lock().unwrap().ticks;
             spy.state().log = Some(Vec::new());
             let flushes_before = spy.flushes();
-            let op_result: Result<(), Verdict> = (|| { match rng.below(14) {
+            let mut printed = 0usize;
+            let op_result: Result<(), Verdict> = (|| { match rng.below(15) {
+                14 => {
+                    // a log line above the bar: the frame painted for it renders the bar (finished or not) below
+                    pb.println("log line");
+                    printed = 1;
+                    history.push("println".into());
+                }
                 12 => {
                     tw = *rng.pick(&[1usize, 2, 4, 8]);
                     pb.set_tab_width(tw);
@@ -253,11 +260,11 @@ fn run_case(seed: u64, idx: u64) -> CaseOut {
                 let lines = last_frame_lines(&spy);
                 let ci = KEYS.iter().position(|k| *k == "custom").unwrap();
                 let want = format!("C<{pos}|{len:?}|t{}>", track.lock().unwrap().since_reset);
-                if lines.get(ci).map(|l| l.trim_end()) != Some(want.as_str()) {
+                if lines.get(ci + printed).map(|l| l.trim_end()) != Some(want.as_str()) {
                     return Err(viol(
                         "custom-key-out-of-step-with-bar",
                         vec!["custom".into(), "frame-painted-by-the-operation".into()],
-                        format!("the frame painted by {:?} shows the custom key as {:?}, the tracker's state after the operation is {want:?}", history.last(), lines.get(ci)),
+                        format!("the frame painted by {:?} shows the custom key as {:?}, the tracker's state after the operation is {want:?}", history.last(), lines.get(ci + printed)),
                         J::from(history.clone()),
                         replay.clone(),
                     ));
